@@ -6,7 +6,7 @@
    ignores the stored state, and random attribute generation over an arbitrary oracle stream of
    random draws. *)
 From Coq Require Import List Bool String ZArith.
-From FM Require Import Base.Result Model.FM Model.Queries Model.Metrics Model.GenRandom Model.PyRt Gen.Src_ops
+From FM Require Import Base.Result Model.FM Model.Queries Model.Metrics Model.GenRandom Model.PyRt Gen.Src_ops Gen.Src_atomic
      Gen.Src_opobj Proofs.C17Facts Proofs.C19Facts Proofs.SrcObjFacts.
 Import ListNotations.
 Local Open Scope list_scope.
@@ -86,6 +86,11 @@ Proof.
         (conj (fun s => src_obj_variation_points fuel s m) (fun s x => src_obj_ancestors fuel s x m)))))))).
 Qed.
 Print Assumptions C19_source_objects_depend_on_argument_only.
+
+Theorem C19_source_atomic_sets_object : forall fuel s m,
+  rmap py_FMAtomicSets_get_result (py_FMAtomicSets_execute fuel s m) = py_get_atomic_sets fuel m.
+Proof. exact src_obj_atomic_sets. Qed.
+Print Assumptions C19_source_atomic_sets_object.
 
 (* the same along a whole history of executions from a fresh object *)
 Theorem C19_source_core_history : forall fuel ms m s,
